@@ -656,14 +656,21 @@ class Repo:
         # the parameter must not be re-bound inside the method
         if any(isinstance(x, ast.Name) and x.id == pname and isinstance(x.ctx, (ast.Store, ast.Del)) for x in ast.walk(fi.node)):
             return None
-        sites = []
-        refs = 0
-        for g in self.funcs.values():
-            for x in ast.walk(g.node) if self.func_of_node.get(id(g.node)) is g or True else []:
-                if isinstance(x, ast.Attribute) and x.attr == fi.name and self.func_of_node.get(id(x)) is g:
-                    refs += 1
-                if isinstance(x, ast.Call) and isinstance(x.func, ast.Attribute) and x.func.attr == fi.name and self.func_of_node.get(id(x)) is g:
-                    sites.append((g, x))
+        idx = self.__dict__.get("_attr_ref_index")
+        if idx is None:
+            # one pass over the repo: attribute name -> (number of references, call sites)
+            idx = {}
+            for m in self.modules.values():
+                for x in ast.walk(m.tree):
+                    if isinstance(x, ast.Attribute):
+                        ent = idx.setdefault(x.attr, [0, []])
+                        ent[0] += 1
+                    if isinstance(x, ast.Call) and isinstance(x.func, ast.Attribute):
+                        g_ = self.func_of_node.get(id(x))
+                        if g_ is not None:
+                            idx.setdefault(x.func.attr, [0, []])[1].append((g_, x))
+            self.__dict__["_attr_ref_index"] = idx
+        refs, sites = idx.get(fi.name, [0, []])
         if len(sites) != 1 or refs != 1:
             return None
         g, call = sites[0]
@@ -1026,8 +1033,28 @@ class Repo:
         return None
 
     def _local_assignments(self, name: str, fi: FuncInfo) -> list[ast.AST]:
+        cache = self.__dict__.setdefault("_la_cache", {})
+        key = id(fi.node)
+        table = cache.get(key)
+        if table is None:
+            table = cache[key] = self._all_local_assignments(fi)
+        return list(table.get(name, ()))
+
+    def _all_local_assignments(self, fi: FuncInfo) -> dict[str, list[ast.AST]]:
+        """name -> values assigned to it in fi (one walk per function)"""
+        table: dict[str, list[ast.AST]] = {}
+        names: set[str] = set()
+        nodes = list(self.own_nodes(fi))
+        for n in nodes:
+            if isinstance(n, ast.Name) and isinstance(n.ctx, ast.Store):
+                names.add(n.id)
+        for name in names:
+            table[name] = self._local_assignments_scan(name, nodes)
+        return table
+
+    def _local_assignments_scan(self, name: str, nodes: list) -> list[ast.AST]:
         out = []
-        for n in self.own_nodes(fi):
+        for n in nodes:
             if isinstance(n, ast.Assign):
                 for t in n.targets:
                     if isinstance(t, ast.Name) and t.id == name:
